@@ -57,6 +57,13 @@ def handle (st : St) (idx : Nat) (line : String) : St × String :=
     | "mux" :: "seq" :: rest =>
       let (i', j) := judgeMuxSeq dict st.intern ((kv rest "ops").getD "-") implToks
       ({ st with intern := i' }, emit idx impl j)
+    | "codec" :: "findn" :: rest =>
+      (match (rest.find? (·.startsWith "[")).bind parseAVPs with
+       | some as =>
+         let (i', j) := judgeFindN st.intern ((kvNat rest "app").getD 0) ((kv rest "sets").getD "") ((kv rest "name").getD "")
+           ((kv rest "mode").getD "first") as implToks
+         ({ st with intern := i' }, emit idx impl j)
+       | none => bad)
     | "dict" :: "query" :: rest =>
       let (i', j) := judgeDict st.intern ((kv rest "set").getD "default") (kvNat rest "k") ((kv rest "qs").getD "-") implToks
         defaultDict.parser st.defaultLog
